@@ -353,6 +353,7 @@ def r4_inactive_payload(ctx, f, rep):
     # ... and a payload that was decoded but not consumed (inactive sender) is gone with the datagram
     from . import common as _cm
     _cm.scratch_cleared(ctx, f, rep, 'C09-R4')
+    _cm.payload_staged_whole(ctx, f, rep, 'C09-R4')
 
 
 def r5_forget(ctx, f, rep):
@@ -419,6 +420,8 @@ def check(ctx):
         c08.r2_guards(ctx, f, _Rename(rep, 'C08-R2', 'C09-R2'))
         c08.r3_summary_flow(ctx, f, _Rename(rep, 'C08-R3', 'C09-R2'))
         r3_own_address(ctx, f, rep)
+        from . import common as _cmx
+        _cmx.routing_reads_current_identity(ctx, f, rep, 'C09-R3')
         r4_inactive_payload(ctx, f, rep)
         r5_forget(ctx, f, rep)
     rep.cur_config = None
